@@ -13,9 +13,9 @@ CONFIG = {
         "files": ["network/zz_verif_c43_test.go"],
         "util": [("network", "network")],
         "env": {"quick": {"VERIF_C43_SLURP_SMALL": 1200, "VERIF_C43_SLURP_MID": 200, "VERIF_C43_SLURP_TAGREPS": 1,
-                          "VERIF_C43_FILTER": 1200, "VERIF_C43_NET": 120, "VERIF_C43_NET_TAGS": 1},
+                          "VERIF_C43_FILTER": 1200, "VERIF_C43_NET": 120, "VERIF_C43_NET_TAGS": 1, "VERIF_C43_VNET": 100},
                 "thorough": {"VERIF_C43_SLURP_SMALL": 20000, "VERIF_C43_SLURP_MID": 2500, "VERIF_C43_SLURP_TAGREPS": 8,
-                             "VERIF_C43_FILTER": 15000, "VERIF_C43_NET": 1500, "VERIF_C43_NET_TAGS": 1}},
+                             "VERIF_C43_FILTER": 15000, "VERIF_C43_NET": 1500, "VERIF_C43_NET_TAGS": 1, "VERIF_C43_VNET": 1500}},
         "timeout": {"quick": 600, "thorough": 3000},
     }],
     "rule": "slurp: the real LimitedReaderSlurper fed by a scripted io.Reader (random chunkings incl. zero-length reads, EOF with or "
@@ -23,7 +23,8 @@ CONFIG = {
             "64 KiB step, and the readLoop geometry with sizes limit-1/limit/limit+1/... for every protocol tag; filter: random "
             "CheckDigest(add,promote) sequences on the real messageFilter incl. the default 5x512 geometry; net: real wsPeer.readLoop "
             "goroutines on fake connections sharing one messageFilter under random schedules of duplicates across peers, plus every tag "
-            "around its limit. Non-trivial: a slurp case with a non-empty message, a filter case with a positive answer, a net case with "
+            "around its limit; vnet: the same with votes over connections of mixed negotiated encodings (plain AV, stateless-compressed AV, "
+            "stateful VP), judged on the delivered (tag, bytes) stream. Non-trivial: a slurp case with a non-empty message, a filter case with a positive answer, a net case with "
             "a delivery; distinct = distinct case lines.",
     "exhaustive": {"quick": False, "thorough": False},
     "explanation": "theorems hold for every base/max allocation, limit, message length and read script (slurper), every bucket geometry "
@@ -32,7 +33,7 @@ CONFIG = {
         "an io.Reader hands out consecutive bytes of one message, at most len(p) per call (sequential reader contract)",
         "crypto.Hash(nonce||tag||msg) is collision free on the messages seen (the model keys the filter by tag and payload identity)",
         "messageFilter.CheckDigest is atomic (deadlock.Mutex); readLoop iterations of different peers interleave at message granularity",
-        "vote / proposal compression not negotiated on the modelled connections (payload reaches the filter as slurped)",
+        "vote decompression (vpack, C42) returns the original vote: a vote is identified by the tag and bytes handed to the handlers, whatever its wire encoding; proposal compression not exercised",
         "sizes below 2^63 (no uint64 wrap in the slurper's counters)",
     ],
     "trusted_base": [
